@@ -520,3 +520,18 @@ class SpecFn:
 
 def use_lemma(name, cond):
     pass
+
+
+def AscendingInts(name, lo=0):
+    L = Int(name + '.len', 1)
+    vals = ctx.model.get(name + '.values')
+    if vals is not None and len(vals) == L and all(b > a for a, b in zip(vals, vals[1:])) and vals[0] >= lo:
+        ns = [int(v) for v in vals]
+    else:
+        cur = lo + ctx.rng.randint(0, 3)
+        ns = []
+        for _ in range(L):
+            ns.append(cur)
+            cur += ctx.rng.randint(1, 3)
+    ctx.drawn[name + '.values'] = list(ns)
+    return ns, L
